@@ -91,6 +91,22 @@ func genC06(t *rapid.T) c06Case {
 		}
 		cs.Blocks = append(cs.Blocks, bp)
 	}
+	// a declared sender that is not the signer but shares its last 20 bytes: somebody funds the 32-byte account first,
+	// later the key signs a tx that names that account as its sender
+	if rapid.IntRange(0, 3).Draw(t, "longfrom") == 0 {
+		k := rapid.IntRange(0, nEOA-1).Draw(t, "longkey")
+		fb := rapid.IntRange(0, len(cs.Blocks)-1).Draw(t, "fundblock")
+		fund := TxPlan{Kind: "bank", From: (k + 1 + rapid.IntRange(0, nEOA-2).Draw(t, "funder")) % nEOA, ToKey: 100 + k, Gas: 200000, CapOver: 1, Amount: "50000000000000000000"}
+		cs.Blocks[fb].Txs = append([]TxPlan{fund}, cs.Blocks[fb].Txs...)
+		p := genEthPlan(t, w, cfg, false)
+		p.From, p.Mut, p.NonceOff = k, "longfrom", 0
+		ub := rapid.IntRange(fb, len(cs.Blocks)).Draw(t, "useblock")
+		if ub == len(cs.Blocks) || ub == fb {
+			cs.Blocks = append(cs.Blocks, BlockPlan{Dt: 3, Txs: []TxPlan{p}})
+		} else {
+			cs.Blocks[ub].Txs = append(cs.Blocks[ub].Txs, p)
+		}
+	}
 	return cs
 }
 
